@@ -22,8 +22,10 @@ LweExp(f, r, s, p, mu, q, n) ==          \* expected word at position q (1..n ma
       [] f = "submulto" -> WSub(r, WMul(p, s))
       [] f = "subto_alias" -> WZero
       [] f = "addto_alias" -> WAdd(r, r)
+      [] f = "negate_alias" -> WNeg(r)
+      [] f = "copy_alias" -> r
 VarExp(f, ps) == CASE f \in {"clear", "trivial"} -> 0 [] f \in {"copy", "negate"} -> 1 [] f \in {"addto", "subto"} -> 8
-                   [] f \in {"addmulto", "submulto"} -> 7 + ps * ps [] f \in {"subto_alias", "addto_alias"} -> 14
+                   [] f \in {"addmulto", "submulto"} -> 7 + ps * ps [] f \in {"subto_alias", "addto_alias"} -> 14 [] f \in {"negate_alias", "copy_alias"} -> 7
 RowLwe == LET n == R.n IN
     /\ Len(R.out) = n + 1 /\ Len(R.key) = n
     /\ \A q \in 1..(n + 1) : Wd(R.out[q]) = LweExp(R.f, Wd(R.r0[q]), Wd(R.s[q]), R.p, R.mu, q, n)       \* coefficient-wise, hence for every key
@@ -36,6 +38,8 @@ RowLwe == LET n == R.n IN
          [] R.f = "addmulto" -> Wd(R.ph[3]) = WAdd(Wd(R.ph[1]), WMul(R.p, Wd(R.ph[2])))
          [] R.f = "submulto" -> Wd(R.ph[3]) = WSub(Wd(R.ph[1]), WMul(R.p, Wd(R.ph[2])))
          [] R.f = "negate" -> Wd(R.ph[3]) = WNeg(Wd(R.ph[2]))
+         [] R.f = "negate_alias" -> Wd(R.ph[3]) = WNeg(Wd(R.ph[1]))
+         [] R.f = "copy_alias" -> R.ph[3] = R.ph[1]
          [] R.f = "copy" -> R.ph[3] = R.ph[2]
          [] R.f = "clear" -> Wd(R.ph[3]) = WZero
          [] R.f = "trivial" -> Wd(R.ph[3]) = R.mu
